@@ -327,6 +327,8 @@ struct Obs {
 // ------------------------------------------------------------------------------------------
 #[derive(Default)]
 struct Rec {
+	/// "<state>:<kind>" of a focused scenario
+	focus: Option<String>,
 	keys: Vec<String>,
 	init: Vec<String>,
 	steps: Vec<String>,
@@ -1705,6 +1707,44 @@ fn run_scenario(seed: u64, k: u64, max_steps: u64, flags: &Flags, rec: &Rc<RefCe
 	let hs_dup_on = rng.below(2) == 0;
 	let late_dup_on = rng.below(3) == 0;
 	let quiesce_on = rng.below(3) == 0;
+	// A FOCUSED scenario (every second one with flag adv) aims ONE injected message at ONE receiver
+	// state: until it has fired, nothing else is injected or corrupted, the scheduler steers towards
+	// the state (async persistence, stfu, a held manager), and as soon as a node is in that state and
+	// the message can be built the injection is all but certain. Afterwards the scenario goes on as
+	// an ordinary one. States: 0 = not awaiting a revocation, monitor update in progress; 1 = awaiting,
+	// monitor update in progress with our commitment_signed still pending on it; 2 = our stfu sent;
+	// 3 = quiescent; 4 = manager held back after a monitor-API broadcast; 5 = reconnected, no
+	// channel_reestablish yet; 6 = idle; 7 = awaiting, no monitor update.
+	let mut focus: Option<(u64, usize)> = None;
+	if flags.adv && rng.below(3) != 0 {
+		// the states that need steering and the unsolicited / early revoke_and_ack get most of the mass
+		let mut st = [0u64, 0, 0, 0, 1, 1, 1, 2, 3, 4, 4, 4, 5, 6, 7][rng.below(15) as usize];
+		let kind = [0usize, 0, 0, 0, 1, 2, 3, 4, 4][rng.below(9) as usize];
+		if (st == 0 || st == 1) && !flags.asyn {
+			st += 6;
+		}
+		if st == 4 && !flags.close {
+			st = 5;
+		}
+		focus = Some((st, kind));
+	}
+	let focus_state = focus.map(|f| f.0);
+	// after the focused message nothing else is injected or corrupted for a while: its consequences
+	// (monitor completions, retransmissions, the next update) get room to play out
+	let mut quiet_until = 0u64;
+	let (adv_start, inject_on, quiesce_on, close_start) = match focus_state {
+		Some(st) => (
+			adv_at.min(max_steps / 4),
+			true,
+			quiesce_on || st == 2 || st == 3,
+			if st == 4 { adv_at.min(max_steps / 4) } else { close_start },
+		),
+		None => (adv_start, inject_on, quiesce_on, close_start),
+	};
+	{
+		let mut r = rec.borrow_mut();
+		r.focus = focus.map(|(st, k)| format!("{}:{}", st, INJECT_KINDS[k]));
+	}
 	// nodes whose monitor was told to broadcast its holder commitment (statistics only)
 	let mut locked = [false; 2];
 
@@ -1722,16 +1762,39 @@ fn run_scenario(seed: u64, k: u64, max_steps: u64, flags: &Flags, rec: &Rc<RefCe
 		let hs = both_open && !ready;
 		// injected messages (offered in both regimes below)
 		let mut inj: Vec<(u64, Act)> = Vec::new();
-		if flags.adv && inject_on && step >= adv_start && w.connected {
+		if flags.adv && inject_on && step >= adv_start && step >= quiet_until && w.connected {
 			for n in 0..2 {
 				if let Some(v) = views[n].as_ref() {
 					if !v.channel_ready {
 						continue;
 					}
 					let hot = v.monitor_update_in_progress || v.local_stfu_sent || v.quiescent || w.hold[n];
+					let in_focus_state = match focus {
+						Some((0, _)) => !v.awaiting_remote_revoke && v.monitor_update_in_progress && !v.peer_disconnected,
+						Some((1, _)) => {
+							v.awaiting_remote_revoke
+								&& v.monitor_update_in_progress
+								&& v.monitor_pending_commitment_signed
+								&& !v.peer_disconnected
+						},
+						Some((2, _)) => v.local_stfu_sent,
+						Some((3, _)) => v.quiescent,
+						Some((4, _)) => w.hold[n] && !v.peer_disconnected,
+						Some((5, _)) => v.peer_disconnected,
+						Some((6, _)) => !v.awaiting_remote_revoke && !v.monitor_update_in_progress && !v.peer_disconnected,
+						Some((_, _)) => v.awaiting_remote_revoke && !v.monitor_update_in_progress && !v.peer_disconnected,
+						None => false,
+					};
 					for k in 0..INJECT_KINDS.len() {
 						if w.inject_available(n, k, v) {
-							inj.push((if hot { 5 } else { 1 }, Act::Inject(n, k)));
+							match focus {
+								Some((_, fk)) => {
+									if fk == k && in_focus_state {
+										inj.push((600, Act::Inject(n, k)));
+									}
+								},
+								None => inj.push((if hot { 5 } else { 1 }, Act::Inject(n, k))),
+							}
 						}
 					}
 				}
@@ -1788,7 +1851,8 @@ fn run_scenario(seed: u64, k: u64, max_steps: u64, flags: &Flags, rec: &Rc<RefCe
 			if w.held_fs.is_some() && w.connected && open[0] {
 				en.push((6, Act::BatchComplete));
 			}
-			if flags.adv && w.connected {
+			// (a focused scenario injects no channel_ready before its one message)
+			if flags.adv && w.connected && focus.is_none() && step >= quiet_until {
 				for n in 0..2 {
 					if !open[n] {
 						continue;
@@ -1818,7 +1882,7 @@ fn run_scenario(seed: u64, k: u64, max_steps: u64, flags: &Flags, rec: &Rc<RefCe
 							.map(|d| d.is_channel_ready)
 							.unwrap_or(false);
 						if usable {
-							en.push((2, Act::Quiesce(n)));
+							en.push((if matches!(focus_state, Some(2) | Some(3)) { 8 } else { 2 }, Act::Quiesce(n)));
 						}
 					}
 				}
@@ -1835,7 +1899,15 @@ fn run_scenario(seed: u64, k: u64, max_steps: u64, flags: &Flags, rec: &Rc<RefCe
 			}
 			for n in 0..2 {
 				if ready && w.connected {
-					en.push((6, Act::Send(n)));
+					// (with a steady stream of payments a node that gets a revocation commits again at once)
+					// while a focus on a not-awaiting state is pending, a new payment starts only from rest
+					let calm = matches!(focus, Some((0, _)) | Some((6, _))) && step >= adv_start;
+					let at_rest = views.iter().all(|v| v.as_ref().map(|v| !v.awaiting_remote_revoke).unwrap_or(true));
+					if !calm {
+						en.push((6, Act::Send(n)));
+					} else if at_rest {
+						en.push((3, Act::Send(n)));
+					}
 				}
 			}
 			for n in 0..2 {
@@ -1844,7 +1916,7 @@ fn run_scenario(seed: u64, k: u64, max_steps: u64, flags: &Flags, rec: &Rc<RefCe
 					en.push((2, Act::Fail(n)));
 				}
 			}
-			if ready && w.connected {
+			if ready && w.connected && !(matches!(focus, Some((0, _)) | Some((6, _))) && step >= adv_start) {
 				en.push((2, Act::Fee));
 			}
 			if w.connected {
@@ -1860,9 +1932,9 @@ fn run_scenario(seed: u64, k: u64, max_steps: u64, flags: &Flags, rec: &Rc<RefCe
 			if flags.asyn {
 				for n in 0..2 {
 					if async_mode[n] {
-						en.push((6, Act::MonComplete(n)));
+						en.push((if matches!(focus_state, Some(0) | Some(1)) { 2 } else { 6 }, Act::MonComplete(n)));
 					} else if open[n] && !hs {
-						en.push((1, Act::MonAsync(n)));
+						en.push((if matches!(focus_state, Some(0) | Some(1)) { 12 } else { 1 }, Act::MonAsync(n)));
 					}
 				}
 			}
@@ -1885,7 +1957,8 @@ fn run_scenario(seed: u64, k: u64, max_steps: u64, flags: &Flags, rec: &Rc<RefCe
 						en.push((2, Act::ForceClose(n)));
 						// preferably with a commitment_signed about to reach the node
 						let cs_queued = w.connected && w.q[n].iter().any(|m| matches!(m.w, Wire::CS(_)));
-						en.push((if cs_queued { 10 } else { 2 }, Act::MonBroadcast(n)));
+						let base = if focus_state == Some(4) { 6 } else { 2 };
+						en.push((if cs_queued { 10 } else { base }, Act::MonBroadcast(n)));
 					}
 					if blocks_ok(&w, n) {
 						en.push((if open[n] { 1 } else { 4 }, Act::Blocks(n)));
@@ -1933,7 +2006,8 @@ fn run_scenario(seed: u64, k: u64, max_steps: u64, flags: &Flags, rec: &Rc<RefCe
 		let mut delivered_reest = false;
 		match act {
 			Act::Deliver(n) => {
-				let adv = flags.adv && step >= adv_start;
+				// (a focused scenario corrupts nothing before its one message has been delivered)
+				let adv = flags.adv && step >= adv_start && focus.is_none() && step >= quiet_until;
 				w.deliver(n, &mut rng, adv, rec, &hdr);
 				// args were fixed (and stored) before the handler ran
 				let p = rec.borrow().pending.clone().unwrap();
@@ -1943,6 +2017,10 @@ fn run_scenario(seed: u64, k: u64, max_steps: u64, flags: &Flags, rec: &Rc<RefCe
 			},
 			Act::Inject(n, kind) => match w.build_inject(n, kind, &mut rng) {
 				Some((m, reported)) => {
+					if focus.is_some() {
+						focus = None;
+						quiet_until = step + 30;
+					}
 					w.deliver_injected(n, m, reported, rec, &hdr);
 					let p = rec.borrow().pending.clone().unwrap();
 					let at = p.find("\"args\":{").unwrap() + 8;
@@ -2239,12 +2317,13 @@ fn run_one(seed: u64, k: u64, max_steps: u64, flags: &Flags, stats: &mut Stats) 
 		r.steps.push(format!("{{{},\"obs\":null,\"panicked\":true}}", p));
 	}
 	println!(
-		"R {{\"k\":{},\"seed\":{},\"max_steps\":{},\"flags\":{},\"panic\":{},\"open\":{},\"zero_conf\":{},\"keys\":{},\"init\":{},\"init_sent\":{},\"steps\":{}}}",
+		"R {{\"k\":{},\"seed\":{},\"max_steps\":{},\"flags\":{},\"panic\":{},\"focus\":{},\"open\":{},\"zero_conf\":{},\"keys\":{},\"init\":{},\"init_sent\":{},\"steps\":{}}}",
 		k,
 		seed,
 		max_steps,
 		js(&flags.raw),
 		jopt(&panic_msg),
+		jopt(&r.focus),
 		js(&r.open_mode),
 		r.zero_conf,
 		jarr(&r.keys),
